@@ -57,9 +57,11 @@ Definition c1 : float := 0x1.a36e2eb1c432dp-14%float.
    (df0 < 0 itself is not required: the implementation produces directions with df0 >= 0 once its curvature
    pairs are rounding noise; the harness counts those steps.) *)
 Definition step_numbers_ok (f df0 alpha fnew : float) : bool :=
-  PrimFloat.ltb 0 alpha &&
-  negb (PrimFloat.ltb (PrimFloat.add f (PrimFloat.mul (PrimFloat.mul c1 alpha) df0)) fnew) &&
-  (PrimFloat.leb fnew f || PrimFloat.ltb 0 df0).
+  (PrimFloat.ltb 0 alpha &&
+   negb (PrimFloat.ltb (PrimFloat.add f (PrimFloat.mul (PrimFloat.mul c1 alpha) df0)) fnew) &&
+   (PrimFloat.leb fnew f || PrimFloat.ltb 0 df0))
+  || (* the line search gave up (repair 78b374f): zero step, same point, same objective value *)
+  (PrimFloat.eqb alpha 0 && PrimFloat.eqb fnew f).
 
 Record replay_state := mkRs { rs_rho : list float; rs_dxh : list (list float); rs_dgh : list (list float);
                               rs_tla : list float; rs_iter : nat; rs_ok : bool }.
@@ -109,7 +111,8 @@ Definition quad_df (A : list (list float)) (b x : list float) : list float :=
   map2 (fun row bi => PrimFloat.sub (vdot F row x) bi) A b.
 
 (* per step: objective and gradient values are those of the model objective; the step length equals the model
-   line search on phi(a) = f(x + a s) whenever that needs at most one interpolation (with two or more the
+   line search on phi(a) = f(x + a s) whenever that needs at most one interpolation (the model is run with a
+   budget of one and answers with the zero step when it needs more; with two or more the
    cubic fit of an exactly quadratic function divides rounding noise by rounding noise, so only the Armijo
    test is checked there); the convergence test of the model says "continue" after every step but the last
    and agrees with the recorded exit reason after the last *)
@@ -126,7 +129,7 @@ Fixpoint quad_steps (A : list (list float)) (b : list float) (L : lb_params (T :
                   && flist_eq (quad_df A b x_next) g_next in
       let phi := fun a => quad_f A b (vadd F (vscale F s a) x) in
       let ls := match bt_search F (bt_default third 0) phi 1%float f df0 with
-                | Some (a, _) => feq_tol tol9 a alpha
+                | Some (a, _) => PrimFloat.eqb a 0 || feq_tol tol9 a alpha   (* a = 0: more than one interpolation *)
                 | None => true
                 end in
       let st := mkSt x_next x fnew f g_next g [] [] [] [] [] k counter [] alpha in
